@@ -2,6 +2,20 @@
 #[macro_export]
 macro_rules! impl_datatype_partial_eq {
     ($($type_name:tt)+) => {
+        impl $($type_name)+ {
+            /// The value of an integer variant, exactly.
+            #[inline]
+            pub(crate) fn exact_int(&self) -> Option<i128> {
+                match self {
+                    Self::Int(v) => Some(v.0 as i128),
+                    Self::BigInt(v) => Some(v.0 as i128),
+                    Self::UInt(v) => Some(v.0 as i128),
+                    Self::BigUInt(v) => Some(v.0 as i128),
+                    _ => None,
+                }
+            }
+        }
+
         impl PartialEq for $($type_name)+ {
             fn eq(&self, other: &Self) -> bool {
                 match (self, other) {
@@ -13,12 +27,15 @@ macro_rules! impl_datatype_partial_eq {
                     (Self::Bool(a), Self::Bool(b)) => a == b,
                     (Self::Blob(a), Self::Blob(b)) => a == b,
 
-                    // Numeric types are promoted to f64 to compare
+                    // Numeric types compare by value, exactly: integers as integers (an f64
+                    // cannot tell 2^53 from 2^53 + 1), an integer against a float without rounding
                     (a, b) if a.is_numeric() && b.is_numeric() => {
-                        match (a.to_f64(), b.to_f64()) {
-                            (Some(x), Some(y)) => x == y,
-                            _ => false,
-                        }
+                        $crate::types::core::numeric_cmp(
+                            a.exact_int(),
+                            a.to_f64(),
+                            b.exact_int(),
+                            b.to_f64(),
+                        ) == Some(Ordering::Equal)
                     }
 
                     // Different type categories are not equal
@@ -44,12 +61,14 @@ macro_rules! impl_datatype_partial_ord {
                     // Blob uses lexicographic ordering
                     (Self::Blob(a), Self::Blob(b)) => a.partial_cmp(b),
 
-                    // Numeric types are promoted to f64 and compared
+                    // Numeric types compare by value, exactly (see PartialEq)
                     (a, b) if a.is_numeric() && b.is_numeric() => {
-                        match (a.to_f64(), b.to_f64()) {
-                            (Some(x), Some(y)) => x.partial_cmp(&y),
-                            _ => None,
-                        }
+                        $crate::types::core::numeric_cmp(
+                            a.exact_int(),
+                            a.to_f64(),
+                            b.exact_int(),
+                            b.to_f64(),
+                        )
                     }
 
                     // Different type categories cannot be compared
